@@ -592,6 +592,10 @@ Lemma show_expr_exists pf f l :
 Proof. reflexivity. Qed.
 Lemma show_path_filter pf f e : show_path pf (S f) (PFilter e) = [63; 40] ++ show_expr pf f e ++ [41].
 Proof. reflexivity. Qed.
+Lemma show_path_predicate pf f e : show_path pf (S f) (PPredicate e) = show_expr pf f e.
+Proof. reflexivity. Qed.
+Lemma show_path_root pf f : show_path pf (S f) PRoot = [36].
+Proof. reflexivity. Qed.
 Lemma safe_expr_S okf f rp e :
   safe_expr okf (S f) rp e =
   match e with
@@ -629,6 +633,11 @@ Qed.
 Definition head_ok (t : list N) : Prop := exists c r, t = c :: r /\ is_space c = false.
 Lemma head_ok_ms t x : head_ok t -> multispace0 (t ++ x) = t ++ x.
 Proof. intros (c & r & -> & H). apply ms_app_head. exact H. Qed.
+
+Lemma flat_len_each {A} (show : A -> list N) l a : In a l -> (length (show a) <= length (flat_map show l))%nat.
+Proof.
+  induction l as [|b l IH]; [intros []|]. cbn [flat_map]. rewrite app_length. intros [-> | H]; [lia|]. specialize (IH H). lia.
+Qed.
 
 Section Heads.
   Variable pf : N -> list N.
@@ -760,11 +769,6 @@ Section Level.
   Qed.
   Lemma path_fuel_close x : path_fuel m (41 :: x) = PErr.
   Proof. destruct m; reflexivity. Qed.
-
-  Lemma flat_len_each {A} (show : A -> list N) l a : In a l -> (length (show a) <= length (flat_map show l))%nat.
-  Proof.
-    induction l as [|b l IH]; [intros []|]. cbn [flat_map]. rewrite app_length. intros [-> | H]; [lia|]. specialize (IH H). lia.
-  Qed.
 
   Lemma exists_steps_rt f l rest : (f <= n)%nat -> forallb (safe_step okf f) l = true ->
     (length (flat_map (show_path pf f) l) < m)%nat ->
@@ -981,3 +985,188 @@ Section Main.
       apply (HP n false e (41 :: rest) (le_n _) Hs' ltac:(lia) eq_refl).
   Qed.
 End Main.
+
+(* ---------------------------------------------------------------- the whole path *)
+Fixpoint inner_prefix (l : list path) : list path :=
+  match l with p :: r => if safe_inner p then p :: inner_prefix r else [] | [] => [] end.
+Fixpoint inner_suffix (l : list path) : list path :=
+  match l with p :: r => if safe_inner p then inner_suffix r else l | [] => [] end.
+Lemma inner_prefix_safe l : forallb safe_inner (inner_prefix l) = true.
+Proof. induction l as [|p r IH]; [reflexivity|]. cbn [inner_prefix]. destruct (safe_inner p) eqn:E; [cbn [forallb]; rewrite E, IH; reflexivity|reflexivity]. Qed.
+
+Lemma pdouble_dot b x : is_digit b = false -> pdouble (46 :: b :: x) = PErr.
+Proof.
+  intros H. unfold pdouble, float_parts. cbn [take_digits]. change (is_digit 46) with false. cbv iota. cbn [rev].
+  cbn [take_digits]. rewrite H. cbn [rev]. cbv iota. cbn [pbind pmap palt]. reflexivity.
+Qed.
+Lemma path_value_dot b x : is_digit b = false -> path_value (46 :: b :: x) = PErr.
+Proof. intros H. unfold path_value. rewrite (pdouble_dot b x H). reflexivity. Qed.
+Lemma path_fuel_nil m : path_fuel m [] = PErr.
+Proof. destruct m; reflexivity. Qed.
+
+Lemma json_path_predicate fuel bs e : multispace0 bs = bs -> expr_or_fuel fuel true bs = POk [] e ->
+  json_path_fuel fuel bs = POk [] [PPredicate e].
+Proof. intros M H. unfold json_path_fuel. cbv zeta. unfold ws_around. rewrite !M, H. reflexivity. Qed.
+Lemma json_path_rooted fuel x r' l : expr_or_fuel fuel true (36 :: x) = PErr ->
+  many0 (path_fuel fuel) (S (length x)) x [] = POk r' l -> multispace0 r' = [] ->
+  json_path_fuel fuel (36 :: x) = POk [] (PRoot :: l).
+Proof.
+  intros H1 H2 H3. unfold json_path_fuel. cbv zeta. unfold ws_around.
+  assert (M : multispace0 (36 :: x) = 36 :: x) by reflexivity. rewrite !M, H1. cbn [pmap pbind palt].
+  change (pre_path (36 :: x)) with (POk x PRoot). cbv iota beta. rewrite H2. cbn [pbind]. rewrite H3. reflexivity.
+Qed.
+Lemma json_path_unrooted fuel bs r' l : multispace0 bs = bs -> expr_or_fuel fuel true bs = PErr -> pre_path bs = PErr ->
+  many0 (path_fuel fuel) (S (length bs)) bs [] = POk r' l -> multispace0 r' = [] ->
+  json_path_fuel fuel bs = POk [] l.
+Proof.
+  intros M H1 Hp H2 H3. unfold json_path_fuel. cbv zeta. unfold ws_around.
+  rewrite !M, H1. cbn [pmap pbind palt]. rewrite Hp. cbv iota beta. rewrite H2. cbn [pbind]. rewrite H3. reflexivity.
+Qed.
+Lemma pred_fails k T : expr_atom true (path_fuel k) (expr_or_fuel k true) T = PErr -> expr_or_fuel (S k) true T = PErr.
+Proof. intros H. rewrite expr_or_fuel_S. unfold expr_or, expr_and, separated_list1. rewrite H. reflexivity. Qed.
+
+Lemma forallb_cons {A} (g : A -> bool) a l : forallb g (a :: l) = g a && forallb g l.
+Proof. reflexivity. Qed.
+Lemma flat_map_cons {A B} (g : A -> list B) a l : flat_map g (a :: l) = g a ++ flat_map g l.
+Proof. reflexivity. Qed.
+Lemma flat_map_single {A B} (g : A -> list B) a : flat_map g [a] = g a.
+Proof. cbn [flat_map]. apply app_nil_r. Qed.
+
+Section Top.
+  Variable pf : N -> list N.
+  Variable okf : N -> bool.
+  Hypothesis Hfl : forall b, okf b = true -> path_float_reads_back pf b.
+
+  Lemma show_split f l : forallb (safe_step okf (S f)) l = true ->
+    flat_map (show_path pf (S f)) l = flat_map show_inner (inner_prefix l) ++ flat_map (show_path pf (S f)) (inner_suffix l)
+    /\ steps_follow (flat_map (show_path pf (S f)) (inner_suffix l)) = true
+    /\ (flat_map (show_path pf (S f)) (inner_suffix l) = [] \/ exists x, flat_map (show_path pf (S f)) (inner_suffix l) = 63 :: x).
+  Proof.
+    induction l as [|p r IH]; [intros _; split; [reflexivity|split; [reflexivity|left; reflexivity]]|].
+    cbn [forallb]. intros H. apply andb_true_iff in H. destruct H as [Hp Hr]. cbn [inner_prefix inner_suffix].
+    destruct (safe_inner p) eqn:E.
+    - destruct (IH Hr) as (I1 & I2 & I3). cbn [flat_map]. rewrite I1, (show_path_inner pf f p E), <- app_assoc.
+      split; [reflexivity|split; assumption].
+    - rewrite safe_step_S in Hp. destruct p; try (rewrite E in Hp; discriminate Hp); try discriminate E.
+      cbn [flat_map app]. rewrite show_path_filter. split; [reflexivity|]. split; [reflexivity|right; eexists; reflexivity].
+  Qed.
+
+  Lemma atom_fails_rooted pr er l : forallb (safe_step okf 200) l = true ->
+    expr_atom true pr er (36 :: flat_map (show_path pf 200) l) = PErr.
+  Proof.
+    intros HF. destruct (show_split 199 l HF) as (S1 & S2 & S3). rewrite S1.
+    set (rest := flat_map (show_path pf 200) (inner_suffix l)) in *.
+    destruct (inner_steps_rt (inner_prefix l) rest (inner_prefix_safe l) S2) as (r' & E & M).
+    assert (A : ws_around (inner_expr true) (36 :: flat_map show_inner (inner_prefix l) ++ rest)
+                = POk (multispace0 rest) (EPaths (PRoot :: inner_prefix l))).
+    { unfold ws_around. change (multispace0 (36 :: ?x)) with (36 :: x).
+      unfold inner_expr, expr_paths. cbn [pchar]. change (36 =? 36) with true. cbv iota. cbn [pmap pbind palt].
+      rewrite E. cbn [pmap pbind palt]. rewrite M. reflexivity. }
+    unfold expr_atom. rewrite A. cbn [pbind].
+    destruct S3 as [-> | (x & ->)]; reflexivity.
+  Qed.
+
+  Definition first_shape (T : list N) : Prop :=
+    (exists c x, T = c :: x /\ (c = 58 \/ c = 91 \/ c = 63)) \/ (exists b x, T = 46 :: b :: x /\ is_digit b = false).
+  Lemma first_shape_facts T pr er : first_shape T ->
+    multispace0 T = T /\ expr_atom true pr er T = PErr /\ pre_path T = PErr.
+  Proof.
+    intros [(c & x & -> & [-> | [-> | ->]]) | (b & x & -> & Hb)]; try (repeat split; reflexivity).
+    split; [reflexivity|]. split; [|reflexivity].
+    assert (W : ws_around (inner_expr true) (46 :: b :: x) = PErr).
+    { unfold ws_around. change (multispace0 (46 :: b :: x)) with (46 :: b :: x). unfold inner_expr.
+      change (expr_paths true (46 :: b :: x)) with (@PErr (list path)). rewrite (path_value_dot b x Hb). reflexivity. }
+    unfold expr_atom. rewrite W. reflexivity.
+  Qed.
+  Lemma first_text p l X : safe_step okf 200 p = true -> first_ok (p :: l) = true -> first_shape (show_path pf 200 p ++ X).
+  Proof.
+    intros Hp Hf. rewrite safe_step_S in Hp.
+    destruct p as [| | | |s|s|s|a|e|e]; try discriminate Hp; try rewrite (show_path_inner pf 199 _ Hp); cbn [show_inner].
+    - right. exists 42, X. split; reflexivity.
+    - left. eexists; eexists; split; [reflexivity|tauto].
+    - destruct (name_first s Hp) as (b & r & -> & _). cbn [first_ok] in Hf. apply negb_true_iff in Hf.
+      right. exists b, (r ++ X). split; [reflexivity|exact Hf].
+    - left. eexists; eexists; split; [reflexivity|tauto].
+    - left. eexists; eexists; split; [reflexivity|tauto].
+    - left. eexists; eexists; split; [reflexivity|tauto].
+    - rewrite show_path_filter. left. eexists; eexists; split; [reflexivity|tauto].
+  Qed.
+
+  Lemma top_steps fuel l : forallb (safe_step okf 200) l = true -> (length (flat_map (show_path pf 200) l) < fuel)%nat ->
+    exists r', many0 (path_fuel fuel) (S (length (flat_map (show_path pf 200) l))) (flat_map (show_path pf 200) l) [] = POk r' l
+               /\ multispace0 r' = [].
+  Proof.
+    intros HF Hlen.
+    assert (G : Forall (fun p => safe_step okf 200 p = true /\ (length (show_path pf 200 p) < fuel)%nat) l).
+    { apply Forall_forall. intros p Hp. split; [rewrite forallb_forall in HF; apply HF; exact Hp|].
+      pose proof (flat_len_each (show_path pf 200) l p Hp). lia. }
+    pose proof (many0_rt (path_fuel fuel) (show_path pf 200)
+                  (fun p => safe_step okf 200 p = true /\ (length (show_path pf 200 p) < fuel)%nat) name_follow) as W.
+    specialize (W (fun a r Ha Hr => proj2 (levels pf okf Hfl 200 fuel) a r (proj1 Ha) (proj2 Ha) Hr)).
+    specialize (W (fun a x Ha => step_head_facts pf okf 200 a x (proj1 Ha))).
+    specialize (W [] l (S (length (flat_map (show_path pf 200) l))) eq_refl (path_fuel_nil fuel) (path_fuel_nil fuel) G).
+    rewrite app_nil_r in W. apply W.
+    pose proof (flat_len_ge (show_path pf 200) _ l (fun a Ha => proj2 (proj2 (step_head_facts pf okf 200 a [] (proj1 Ha)))) G). lia.
+  Qed.
+
+  Lemma safe_path_unrooted p l : p <> PRoot -> (forall e, p <> PPredicate e) ->
+    safe_path okf (p :: l) = forallb (safe_step okf 200) (p :: l) && first_ok (p :: l).
+  Proof. intros H1 H2. destruct p; try reflexivity; [contradiction H1; reflexivity|]. destruct (H2 e eq_refl). Qed.
+
+  Lemma top_unrooted p l : safe_path okf (p :: l) = true -> p <> PRoot -> (forall e, p <> PPredicate e) ->
+    json_path_fuel (S (length (flat_map (show_path pf 200) (p :: l)))) (flat_map (show_path pf 200) (p :: l)) = POk [] (p :: l).
+  Proof.
+    intros H N1 N2. rewrite (safe_path_unrooted p l N1 N2) in H. apply andb_true_iff in H. destruct H as [HF Hfo].
+    pose proof HF as HF'. rewrite forallb_cons in HF'. apply andb_true_iff in HF'. destruct HF' as [Hp _].
+    remember (flat_map (show_path pf 200) (p :: l)) as T eqn:ET.
+    assert (Sh : first_shape T) by (subst T; rewrite flat_map_cons; apply (first_text p l _ Hp Hfo)).
+    destruct (first_shape_facts T (path_fuel (length T)) (expr_or_fuel (length T) true) Sh) as (M & A & P).
+    destruct (top_steps (S (length T)) (p :: l) HF ltac:(rewrite <- ET; lia)) as (r' & E & Mr). rewrite <- ET in E.
+    exact (json_path_unrooted _ T r' (p :: l) M (pred_fails _ T A) P E Mr).
+  Qed.
+
+  Lemma top_rooted l : forallb (safe_step okf 200) l = true ->
+    json_path_fuel (S (length (36 :: flat_map (show_path pf 200) l))) (36 :: flat_map (show_path pf 200) l) = POk [] (PRoot :: l).
+  Proof.
+    intros Hs. remember (flat_map (show_path pf 200) l) as X eqn:EX.
+    destruct (top_steps (S (length (36 :: X))) l Hs ltac:(rewrite <- EX; cbn [length]; lia)) as (r' & E & Mr). rewrite <- EX in E.
+    apply (json_path_rooted _ X r' l); [|exact E|exact Mr].
+    apply pred_fails. rewrite EX. apply atom_fails_rooted. exact Hs.
+  Qed.
+
+  Lemma top_predicate e : safe_expr okf 199 true e = true ->
+    json_path_fuel (S (length (show_expr pf 199 e))) (show_expr pf 199 e) = POk [] [PPredicate e].
+  Proof.
+    intros Hs. apply json_path_predicate.
+    - rewrite <- (app_nil_r (show_expr pf 199 e)). apply head_ok_ms. apply (show_expr_head pf okf Hfl 199 true e Hs).
+    - pose proof (proj1 (levels pf okf Hfl 199 (S (length (show_expr pf 199 e)))) true e [] Hs ltac:(lia) eq_refl) as L.
+      rewrite app_nil_r in L. exact L.
+  Qed.
+
+  Lemma show_json_root l : show_json_path pf (PRoot :: l) = 36 :: flat_map (show_path pf 200) l.
+  Proof. unfold show_json_path. rewrite flat_map_cons, (show_path_root pf 199). generalize (flat_map (show_path pf 200) l). reflexivity. Qed.
+  Lemma show_json_pred e : show_json_path pf [PPredicate e] = show_expr pf 199 e.
+  Proof. unfold show_json_path. rewrite flat_map_single. apply show_path_predicate. Qed.
+  Lemma safe_path_root l : safe_path okf (PRoot :: l) = forallb (safe_step okf 200) l.
+  Proof. reflexivity. Qed.
+  Lemma safe_path_pred e : safe_path okf [PPredicate e] = safe_expr okf 199 true e.
+  Proof. reflexivity. Qed.
+  Lemma safe_path_pred_more e q l : safe_path okf (PPredicate e :: q :: l) = false.
+  Proof. reflexivity. Qed.
+
+  Theorem path_roundtrip_floats ps : safe_path okf ps = true -> parse_json_path (show_json_path pf ps) = Ok ps.
+  Proof.
+    intros Hs. unfold parse_json_path.
+    enough (E : json_path_fuel (S (length (show_json_path pf ps))) (show_json_path pf ps) = POk [] ps) by (rewrite E; reflexivity).
+    destruct ps as [|p l]; [reflexivity|].
+    destruct p as [| | | |s|s|s|a|e|e]; try (apply top_unrooted; [exact Hs|discriminate|discriminate]).
+    - rewrite show_json_root. rewrite safe_path_root in Hs. apply top_rooted. exact Hs.
+    - destruct l as [|q l'].
+      + rewrite show_json_pred. rewrite safe_path_pred in Hs. apply top_predicate. exact Hs.
+      + rewrite safe_path_pred_more in Hs. discriminate Hs.
+  Qed.
+End Top.
+
+(* C09: print, then parse — float-free paths, with no assumption about the float printer *)
+Theorem path_roundtrip pf ps : safe_path no_floats ps = true -> parse_json_path (show_json_path pf ps) = Ok ps.
+Proof. apply (path_roundtrip_floats pf no_floats). intros b H. discriminate H. Qed.
